@@ -799,6 +799,96 @@ func passAuth(c *Ctx) error {
 		sb.WriteString(fmt.Sprintf("(%s, %v)", LeanStr(hn), ok))
 	}
 	sb.WriteString("]\n\n")
+	// x/admin keeper: how IsAdminAccount compares a stored entry with the signer, and whether InitGenesis /
+	// SetAdminAccount write the entries verbatim.  Recognised shapes only; anything else is "unknown" / none.
+	compare, verbatim := "unknown", "none"
+	if m := p.mod("admin"); m != nil {
+		norm := func(n ast.Node) string { return c.Src(n) }
+		strCmpIsEq := false
+		if tfiles, err := c.ParseDir(filepath.Join("x", "admin", "types")); err == nil {
+			if fd := FindFunc(tfiles, "", "StringCompare"); fd != nil && fd.Body != nil && len(fd.Body.List) == 1 && len(fd.Type.Params.List) == 1 && len(fd.Type.Params.List[0].Names) == 2 {
+				a, b := fd.Type.Params.List[0].Names[0].Name, fd.Type.Params.List[0].Names[1].Name
+				strCmpIsEq = norm(fd.Body.List[0]) == "return "+a+" == "+b
+			}
+		}
+		for _, fd := range m.funcs["IsAdminAccount"] {
+			if recvType(fd) != "Keeper" || len(fd.Type.Params.List) != 3 || len(fd.Type.Params.List[2].Names) != 1 {
+				continue
+			}
+			signer := fd.Type.Params.List[2].Names[0].Name
+			// every `return true` must sit directly under an if whose condition is the string comparison of the
+			// entry's AdminAddress with <signer>.String(), inside a range over GetAdminAccountsForType(ctx, <type param>)
+			okAll, seenTrue := true, 0
+			var walk func(n ast.Node, cond string, ranged bool)
+			walk = func(n ast.Node, cond string, ranged bool) {
+				switch v := n.(type) {
+				case *ast.BlockStmt:
+					for _, st := range v.List {
+						walk(st, cond, ranged)
+					}
+				case *ast.IfStmt:
+					walk(v.Body, norm(v.Cond), ranged)
+					if v.Else != nil {
+						walk(v.Else, "else", ranged)
+					}
+				case *ast.RangeStmt:
+					src := norm(v.X)
+					isTable := src == "accounts" || strings.HasPrefix(src, "k.GetAdminAccountsForType(ctx, ")
+					val := ""
+					if v.Value != nil {
+						val = norm(v.Value)
+					}
+					for _, st := range v.Body.List {
+						if is, ok := st.(*ast.IfStmt); ok {
+							cnd := norm(is.Cond)
+							want1 := "types.StringCompare(" + val + ".AdminAddress, " + signer + ".String())"
+							want2 := val + ".AdminAddress == " + signer + ".String()"
+							good := isTable && ((cnd == want1 && strCmpIsEq) || cnd == want2)
+							for _, b := range is.Body.List {
+								if r, ok := b.(*ast.ReturnStmt); ok && len(r.Results) == 1 && norm(r.Results[0]) == "true" {
+									seenTrue++
+									if !good {
+										okAll = false
+									}
+								} else {
+									okAll = false
+								}
+							}
+							if is.Else != nil {
+								okAll = false
+							}
+						} else {
+							okAll = false
+						}
+					}
+				case *ast.ReturnStmt:
+					if len(v.Results) == 1 && norm(v.Results[0]) != "false" {
+						okAll = false // a `return true` (or anything else) outside the recognised comparison
+					}
+				case *ast.AssignStmt:
+					if len(v.Lhs) == 1 && norm(v.Lhs[0]) == "accounts" && !strings.HasPrefix(norm(v.Rhs[0]), "k.GetAdminAccountsForType(ctx, ") {
+						okAll = false
+					}
+				default:
+					okAll = false
+				}
+			}
+			walk(fd.Body, "", false)
+			if okAll && seenTrue == 1 {
+				compare = "stringEq"
+			}
+		}
+		ig, sa := m.funcs["InitGenesis"], m.funcs["SetAdminAccount"]
+		if len(ig) == 1 && len(sa) == 1 {
+			igSrc := norm(ig[0].Body)
+			saSrc := norm(sa[0].Body)
+			igOK := strings.Contains(igSrc, "for _, adminAccount := range state.AdminAccounts { k.SetAdminAccount(ctx, adminAccount) }") && len(ig[0].Body.List) == 2
+			saOK := saSrc == "{ store := ctx.KVStore(k.storeKey) key := types.GetAdminAccountKey(*account) store.Set(key, k.cdc.MustMarshal(account)) }"
+			verbatim = fmt.Sprintf("some %v", igOK && saOK)
+		}
+	}
+	sb.WriteString("/-- x/admin IsAdminAccount: how a stored entry is compared with the signer (\"stringEq\": AdminAddress == signer.String()) -/\ndef adminCompare : String := " + LeanStr(compare) + "\n")
+	sb.WriteString("/-- x/admin InitGenesis hands every genesis entry to SetAdminAccount, which stores key and value from it unchanged -/\ndef adminGenesisVerbatim : Option Bool := " + verbatim + "\n\n")
 	sb.WriteString(fmt.Sprintf("def methodCount : Nat := %d\n\nend Sif.Generated.Auth\n", total))
 	return c.WriteLean("Auth", sb.String())
 }
